@@ -16,6 +16,17 @@ pub fn run_line(line: &str) -> String {
         "eval" => run_eval(&mut t),
         "env" => run_env(&mut t),
         "num" => crate::numrun::run_num(&mut t),
+        "scan" => crate::lang::run_scan(&mut t),
+        "parse" => crate::lang::run_parse(&mut t),
+        "compile" => crate::lang::run_compile(&mut t),
+        "rt" => crate::lang::run_rt(&mut t),
+        "rr" => crate::lang::run_rr(&mut t),
+        "lay" => crate::lang::run_lay(&mut t),
+        "opt" => crate::tree::run_opt(&mut t),
+        "chkvf" => crate::tree::run_chkvf(&mut t),
+        "chkbool" => crate::tree::run_chkbool(&mut t),
+        "json" => crate::tree::run_json(&mut t),
+        "jsonin" => crate::tree::run_jsonin(&mut t),
         _ => None,
     };
     r.unwrap_or_else(|| "bad".into())
